@@ -34,4 +34,22 @@ def run(c):
         out = efflib.run_and_judge(c, "C01", cases, "c01-" + m)
         efflib.count(c, out, "programs run on the real try/option/either packages (every TLC-exported semantic program x every fitting "
                      "library function + seeded random nested programs); non-trivial = some operand fails or a callback runs")
+    # the other monads of the property, through their own specifications (small runs; C12/C16/C17 go deeper):
+    # Seq / List / Iterator FlatMap-Map coherence against SeqSpec, lazy List cells, StateT and lazy.Eval programs
+    import iterlib
+    import os
+    gens = [dict(kind="pipelines", n=600, seed=rng.getrandbits(40), depth=3, len=6, calls=8),
+            dict(kind="listwalk", n=900, seed=rng.getrandbits(40), depth=1, len=6, calls=12)]
+    iterlib.run_cases(c, "C01", gens, "c01-iter")
+    sr = c.tlc("MCStateT", "MCStateT", count=False)
+    sprogs = json.load(open(os.path.join(sr.dir, "statetprogs.json")))
+    scases = [dict(kind="prog", prog=p["prog"], s0=p["s0"]) for p in rng.sample(sprogs, 1200)] + [dict(kind="gen", seed=rng.getrandbits(30), count=800, depth=4)]
+    _, sout = c.harness("c17", scases, name="c01-statet")
+    for rej in c.validate(sout, "TraceStateT", max_rejects=2):
+        case = json.loads(rej["events"][0]["case"])
+        c.report("C01:statet-run-differs", dict(case=case, kind="statet", observed=rej["line"]), "StateT program differs from StateTSpec!Run: %s" % json.dumps(rej["line"])[:300])
+    _, eout = c.harness("c16", [dict(kind="gen", seed=rng.getrandbits(30), count=600, depth=5)], name="c01-eval")
+    for rej in c.validate(eout, "TraceEval", max_rejects=2):
+        case = json.loads(rej["events"][0]["case"])
+        c.report("C01:eval-run-differs", dict(case=case, kind="eval", observed=rej["line"]), "lazy.Eval program differs from EvalSpec!Strict: %s" % json.dumps(rej["line"])[:300])
     c.assumptions += ["payload type []int; errors are identified by the injected error value; fn0/fn1 reader monads are not covered here"]
